@@ -163,7 +163,7 @@ def gen_vector(rnd, rt, workdir, mk_wenc):
             if len(comp) > 255 or len(os.path.join(workdir, v.outfile)) >= 4096:
                 fails.append("default output name too long")
     # ---- -k
-    kcls = pick(["valid"] * 7 + ["absent"] * 3 + ["wrong", "len23", "len25", "badchar", "pad0", "pad1", "pad3", "empty"])
+    kcls = pick(["valid"] * 7 + ["absent"] * 3 + ["wrong", "len23", "len25", "len20", "len28", "highbit", "badchar", "pad0", "pad1", "pad3", "empty"])
     ks = b64key(key)
     if kcls == "absent":
         if op in ("d", "v"):
@@ -181,6 +181,14 @@ def gen_vector(rnd, rt, workdir, mk_wenc):
             ks = ks[:23]
         elif kcls == "len25":
             ks = ks + "A"
+        elif kcls == "len20":
+            ks = ks[:18] + "=="
+        elif kcls == "len28":
+            ks = ks[:22] + "AAAA=="
+        elif kcls == "highbit":
+            p = rnd.randrange(22)
+            # a raw byte >= 0x80 whose low 7 bits are a base64 symbol; surrogateescape makes it reach argv as one byte
+            ks = (ks[:p].encode() + b"\xc1" + ks[p + 1:].encode()).decode("utf-8", "surrogateescape")
         elif kcls == "badchar":
             p = rnd.randrange(22)
             ks = ks[:p] + rnd.choice("!@#$%^&*()_-. ") + ks[p + 1:]
@@ -325,7 +333,7 @@ def effect(rt, v, wd, res):
 
 def judge(chk, v, res, rt, wd, stats):
     argv = v.argv()
-    short = [a if len(a) < 80 else a[:30] + "...(%d chars)" % len(a) for a in argv]
+    short = [(a if len(a) < 80 else a[:30] + "...(%d chars)" % len(a)).encode("utf-8", "backslashreplace").decode() for a in argv]
     det = dict(argv=short, expect=v.expect, why=v.why, rc=res["rc"], status=res["status"], stdout_tail=res["out"][-600:], stderr_tail=res["err"][-1500:])
     stats["rc_%s" % res["rc"]] = stats.get("rc_%s" % res["rc"], 0) + 1
     if res["status"] == "timeout":
@@ -461,7 +469,7 @@ def c17(tier, seed):
         cells.add((v.cell, v.expect, tuple(sorted(set(o[0] for o in v.opts)))))
         stats["expect_%s" % v.expect] = stats.get("expect_%s" % v.expect, 0) + 1
         if len(samples) < 6 and i % 211 == 0:
-            samples.append(dict(argv=[a if len(a) < 60 else a[:20] + "...(%d)" % len(a) for a in v.argv()], expect=v.expect, why=v.why, rc=res["rc"]))
+            samples.append(dict(argv=[(a if len(a) < 60 else a[:20] + "...(%d)" % len(a)).encode("utf-8", "backslashreplace").decode() for a in v.argv()], expect=v.expect, why=v.why, rc=res["rc"]))
         shutil.rmtree(wd, ignore_errors=True)
     drnd = random.Random(seed * 104729 + 5)
     for j in range(nd):
